@@ -740,16 +740,20 @@ func init() {
 	})
 	reg(vp+"AnyOf", func(e *Exec, s *State, f *Frame, x *ssa.Call, a []Val) ([]*State, bool) {
 		iv := a[0].(IfaceV)
+		e.recSink = &s.InSeq
 		v := e.anyOf(s, iv.T.(*types.Pointer).Elem(), "in")
+		e.recSink = nil
 		e.store(s, iv.V.(Ptr), v)
 		return nil, false
 	})
 	reg(vp+"AnyString", func(e *Exec, s *State, f *Frame, x *ssa.Call, a []Val) ([]*State, bool) {
 		n := e.newInput("instr", "string", false)
+		s.InSeq = append(s.InSeq, "string:"+n)
 		return ret(f, x, SymStr{T: n})
 	})
 	reg(vp+"AnyAddr", func(e *Exec, s *State, f *Frame, x *ssa.Call, a []Val) ([]*State, bool) {
 		n := e.newInput("inaddr", "addr", false)
+		s.InSeq = append(s.InSeq, "addr:"+n)
 		e.sol.axiom("(>= " + n + " 0)")
 		return ret(f, x, BytesV{Segs: []Seg{{Kind: "addr", T: n}}})
 	})
